@@ -30,7 +30,7 @@ SPEC = dict(
          "Derivative, Intersection, Naturals, UniversalSet, ...; all five printers). distinct = distinct op lines; "
          "non-trivial = all. Tags: catalogue, leaf / leaf-in-sum / leaf-in-power / leaf-in-product (every number and "
          "constant class incl. oo -oo zoo nan), symbol-name (greek, subscripts, underscores, XML and TeX markup "
-         "characters), function (every named function class), derivative, arith / arith-float / arith-inf, relational, "
+         "characters), function (every named function class), nested-power (exponent or base is a power with rational exponent p/q), derivative, arith / arith-float / arith-inf, relational, "
          "boolean, piecewise, set",
     not_covered=[
         "the LaTeX, Unicode, Julia and SBML printers are not modelled: their real output is checked by the harness "
